@@ -73,7 +73,7 @@ class ChaosGen(G.QGen):
     def any_arg(self, depth):
         R = self.R
         r = R.random()
-        deep = depth > self.cfg.max_depth
+        deep = depth > self.cfg.max_depth + 1
         if r < 0.2:
             return self.literal()
         if r < 0.4:
@@ -230,7 +230,8 @@ def run_shard(spec, rec):
     for user in registries:
         for name, (params, ret) in user.items():
             rec.feat("signature:(%s)->%s" % (",".join(params), ret))
-    bounds_choices = [None, None, (-(2**53) + 1, 2**53 - 1), (-10, 10), (0, 100), (-1000, 10), (-5, 5), (-1, 0)]
+    bounds_choices = [None, None, (-(2**53) + 1, 2**53 - 1), (-10, 10), (0, 100), (-1000, 10), (-5, 5), (-1, 0),
+                      (-(2**53), 2**53), (-(2**63), 2**63 - 1), (-(2**53) - 2, 2**53 + 2)]
     envs = {}
     cells = {}
     for _ in range(spec["n"]):
@@ -246,12 +247,12 @@ def run_shard(spec, rec):
         lo, hi = b if b else (-(2**53) + 1, 2**53 - 1)
         cfg = G.Cfg(filters=True, registry=sigs, regex_functions=True, max_depth=2, max_segments=2)
         near = [lo - 1, lo, lo + 1, hi - 1, hi, hi + 1, 0, 1, -1]
-        cfg.indices = [i for i in near if abs(i) <= 2**53] if R.random() < 0.5 else [0, 1, -1, 2]
+        cfg.indices = near if R.random() < 0.5 else [0, 1, -1, 2]
         gen = ChaosGen(R, cfg, chaos=R.choice([0.0, 0.2, 0.5, 0.5, 0.8]))
         e = gen.expr(1)
         pre = R.choice([(), (("child", (("idx", R.choice(cfg.indices)),)),), (("desc", (gen.slice() if R.random() < 0.5 else ("idx", R.choice(cfg.indices)),)),)])
         q = ("q", "$", pre + (("child", (("filter", e),)),) + (() if R.random() < 0.7 else (("child", (gen.slice(),)),)))
-        if any(abs(i) > 2**53 for i in T.ints_of(q)) or not G.representable_literals(q):
+        if not G.representable_literals(q):
             continue
         text = G.render(q, R, feat=rec.features)
         wt, why_t = T.well_typed(q, sigs)
